@@ -48,7 +48,27 @@ def integer_operator(rng: Any) -> tuple[Any, Any]:
     return s, op
 
 
+def case_loop(rng: Any, ctx: Ctx, index: int) -> None:
+    """The 'loop over observations' history: operators of one class are built from fresh parameter arrays, transposed, used and
+    dropped one after the other in the same process (each one judged like any other case)."""
+    import gc
+    name = gen.pick(rng, ['QURotationOperator', 'QURotationOperator', 'QURotationTransposeOperator', 'DiagonalOperator', 'IndexOperator',
+                          'DenseBlockDiagonalOperator', 'SymmetricBandToeplitzOperator'])
+    for it in range(int(rng.integers(6, 14))):
+        op = generate(lambda: gen.operator_of_class(rng, name))
+        if op is None:
+            continue
+        LOG.count('C03.loop', name)
+        opt = op.T                   # monitored
+        guarded('C03.bilinear', lambda: bilinear(op, opt, rng))
+        del op, opt
+        if rng.integers(2):
+            gc.collect()
+
+
 def case(rng: Any, ctx: Ctx, index: int) -> None:
+    if index % 12 == 10:
+        return case_loop(rng, ctx, index)
     if index % 12 == 11:
         s, op = integer_operator(rng)
         if op is None:
